@@ -143,6 +143,7 @@ func main() {
 		env.Shard, _ = strconv.Atoi(p[0])
 		env.NShards, _ = strconv.Atoi(p[1])
 	}
+	workerShard = env.Shard
 	if *budget > 0 {
 		env.Deadline = time.Now().Add(*budget)
 	}
